@@ -15,7 +15,9 @@ mod signal;
 use std::io::{BufRead, Write};
 
 fn main() {
-    std::panic::set_hook(Box::new(|_| {}));
+    if std::env::var_os("RV_PANIC_MSG").is_none() {
+        std::panic::set_hook(Box::new(|_| {}));
+    }
     let args: Vec<String> = std::env::args().collect();
     let mode = args.get(1).map(|s| s.as_str()).unwrap_or("run");
     match mode {
@@ -32,11 +34,38 @@ fn main() {
     }
 }
 
+/// Watchdog: an operation that has not returned after `RV_OP_TIMEOUT` seconds (default 30) is reported as `hang`
+/// and the worker is killed (a valid call that never completes is a failure of C03, not a reason to block the check).
+fn start_watchdog(started: std::sync::Arc<std::sync::atomic::AtomicU64>) {
+    let limit: u64 = std::env::var("RV_OP_TIMEOUT").ok().and_then(|s| s.parse().ok()).unwrap_or(30);
+    let t0 = std::time::Instant::now();
+    std::thread::spawn(move || loop {
+        std::thread::sleep(std::time::Duration::from_millis(500));
+        let s = started.load(std::sync::atomic::Ordering::SeqCst);
+        if s != 0 && t0.elapsed().as_secs() + 1 > s + limit {
+            // raw write: the main thread holds the stdout lock
+            let msg = b"hang\n";
+            unsafe {
+                libc_write(1, msg.as_ptr(), msg.len());
+            }
+            std::process::abort();
+        }
+    });
+}
+
+extern "C" {
+    #[link_name = "write"]
+    fn libc_write(fd: i32, buf: *const u8, count: usize) -> isize;
+}
+
 fn run_stdin() {
     let stdin = std::io::stdin();
     let stdout = std::io::stdout();
     let mut out = stdout.lock();
     let mut sess = session::Session::new();
+    let started = std::sync::Arc::new(std::sync::atomic::AtomicU64::new(0));
+    let t0 = std::time::Instant::now();
+    start_watchdog(started.clone());
     for line in stdin.lock().lines() {
         let line = match line {
             Ok(l) => l,
@@ -49,7 +78,9 @@ fn run_stdin() {
         // announce the op before executing it, so that an abort identifies the step
         let _ = writeln!(out, "> {}", l);
         let _ = out.flush();
+        started.store(t0.elapsed().as_secs() + 1, std::sync::atomic::Ordering::SeqCst);
         let obs = sess.step(l);
+        started.store(0, std::sync::atomic::Ordering::SeqCst);
         let _ = writeln!(out, "{}", obs);
         let _ = out.flush();
     }
